@@ -33,9 +33,18 @@ EXTENDS Integers, Sequences, FiniteSets, TLC
 CONSTANTS Procs,      \* process ids (integers 1..n)
           Keys,       \* keys
           KeyPlans,   \* set of functions Procs -> Seq(Keys): the keys each process Gets, in order
-          ZeroKeySets \* set of subsets of Keys: for which keys the constructor returns the ZERO value of V
+          ZeroKeySets,\* set of subsets of Keys: for which keys the constructor returns the ZERO value of V
+          PanicKeySets\* set of subsets of Keys: for which keys the constructor invocation PANICS
 
-VARIABLES plan,       \* the key plan of this behaviour (chosen in Init)
+VARIABLES pk,         \* the keys whose constructor panics / Goexits (chosen in Init, disjoint from zk):
+                      \* the environment may fail.  The invocation then ends WITHOUT a result,
+                      \* the panic surfaces in the Get that ran the constructor, and -- this is
+                      \* what the code does -- the token is gone and the channel is never closed:
+                      \* the constructor is never invoked again for the key, and every other
+                      \* Get of the key stays blocked.  What must never happen is that some Get
+                      \* returns a value although no constructor invocation returned one.
+          failed,     \* the loaders whose constructor invocation panicked
+          plan,       \* the key plan of this behaviour (chosen in Init)
           zk,         \* the keys whose constructed value is the zero value of V (chosen in Init):
                       \* a nil pointer / nil interface / 0 is a perfectly legal result of the
                       \* constructor, so "has been constructed" (ncons, the closed channel) is
@@ -54,12 +63,14 @@ VARIABLES plan,       \* the key plan of this behaviour (chosen in Init)
           nextv,      \* next fresh value (the constructor returns a fresh object per call)
           rets        \* rets[p]: sequence of values returned by p's Gets
 
-vars == <<plan, zk, calls, pc, map, chan, cached, lkey, ldr, tmp, val, ncons, conval, nextv, rets>>
+vars == <<plan, zk, pk, failed, calls, pc, map, chan, cached, lkey, ldr, tmp, val, ncons, conval, nextv, rets>>
 
 Zero == 0
 
 Init == /\ plan \in KeyPlans
         /\ zk \in ZeroKeySets
+        /\ pk \in PanicKeySets /\ pk \cap zk = {}
+        /\ failed = {}
         /\ calls = [p \in Procs |-> 0]
         /\ pc = [p \in Procs |-> "idle"]
         /\ map = [k \in Keys |-> 0]
@@ -80,19 +91,19 @@ Start(p) ==
     /\ pc[p] = "idle" /\ calls[p] < Len(plan[p])
     /\ calls' = [calls EXCEPT ![p] = @ + 1]
     /\ Goto(p, "load")
-    /\ UNCHANGED <<plan, zk, map, chan, cached, lkey, ldr, tmp, val, ncons, conval, nextv, rets>>
+    /\ UNCHANGED <<plan, zk, pk, failed, map, chan, cached, lkey, ldr, tmp, val, ncons, conval, nextv, rets>>
 
 (* Step 1, the fast track. *)
 LoadHit(p) ==
     /\ pc[p] = "load" /\ map[Key(p)] # 0
     /\ ldr' = [ldr EXCEPT ![p] = map[Key(p)]]
     /\ Goto(p, "call")
-    /\ UNCHANGED <<plan, zk, calls, map, chan, cached, lkey, tmp, val, ncons, conval, nextv, rets>>
+    /\ UNCHANGED <<plan, zk, pk, failed, calls, map, chan, cached, lkey, tmp, val, ncons, conval, nextv, rets>>
 
 LoadMiss(p) ==
     /\ pc[p] = "load" /\ map[Key(p)] = 0
     /\ Goto(p, "miss")
-    /\ UNCHANGED <<plan, zk, calls, map, chan, cached, lkey, ldr, tmp, val, ncons, conval, nextv, rets>>
+    /\ UNCHANGED <<plan, zk, pk, failed, calls, map, chan, cached, lkey, ldr, tmp, val, ncons, conval, nextv, rets>>
 
 (* Step 2.  The process allocates its own channel (holding the token) and     *)
 (* closure; LoadOrStore keeps it only if the key is still absent, otherwise    *)
@@ -110,7 +121,7 @@ LoadOrStore(p) ==
          ELSE /\ ldr' = [ldr EXCEPT ![p] = map[k]]
               /\ UNCHANGED <<chan, cached, lkey, map>>
     /\ Goto(p, "call")
-    /\ UNCHANGED <<plan, zk, calls, tmp, val, ncons, conval, nextv, rets>>
+    /\ UNCHANGED <<plan, zk, pk, failed, calls, tmp, val, ncons, conval, nextv, rets>>
 
 (* The loader call.  `_, ok := <-done` has three outcomes. *)
 HasToken(l)  == chan[l] = "token"
@@ -121,18 +132,18 @@ RecvToken(p) ==
     /\ pc[p] = "call" /\ HasToken(ldr[p])
     /\ chan' = [chan EXCEPT ![ldr[p]] = "empty"]
     /\ Goto(p, "construct")
-    /\ UNCHANGED <<plan, zk, calls, map, cached, lkey, ldr, tmp, val, ncons, conval, nextv, rets>>
+    /\ UNCHANGED <<plan, zk, pk, failed, calls, map, cached, lkey, ldr, tmp, val, ncons, conval, nextv, rets>>
 
 RecvClosed(p) ==
     /\ pc[p] = "call" /\ IsClosed(ldr[p])
     /\ Goto(p, "read")
-    /\ UNCHANGED <<plan, zk, calls, map, chan, cached, lkey, ldr, tmp, val, ncons, conval, nextv, rets>>
+    /\ UNCHANGED <<plan, zk, pk, failed, calls, map, chan, cached, lkey, ldr, tmp, val, ncons, conval, nextv, rets>>
 
 (* The user's constructor runs (c.new(key) with the key the loader captured)   *)
 (* and returns a fresh object -- or, for the keys in zk, the zero value of V.   *)
 (* Schedule replay parks goroutines here.                                      *)
 Construct(p) ==
-    /\ pc[p] = "construct"
+    /\ pc[p] = "construct" /\ lkey[ldr[p]] \notin pk
     /\ LET k == lkey[ldr[p]]
            v == IF k \in zk THEN Zero ELSE nextv IN
        /\ ncons' = [ncons EXCEPT ![k] = @ + 1]
@@ -140,34 +151,48 @@ Construct(p) ==
        /\ tmp' = [tmp EXCEPT ![p] = v]
     /\ nextv' = nextv + 1
     /\ Goto(p, "assign")
-    /\ UNCHANGED <<plan, zk, calls, map, chan, cached, lkey, ldr, val, rets>>
+    /\ UNCHANGED <<plan, zk, pk, failed, calls, map, chan, cached, lkey, ldr, val, rets>>
+
+(* The constructor invocation panics (or calls runtime.Goexit): it counts as   *)
+(* an invocation, yields no value, and unwinds the loader and Get of p -- the  *)
+(* cached variable is not assigned, the channel is not closed, the token is    *)
+(* lost.  p's Get ends with the panic (recorded as Panicked in rets).          *)
+Panicked == -1
+ConstructPanics(p) ==
+    /\ pc[p] = "construct" /\ lkey[ldr[p]] \in pk
+    /\ ncons' = [ncons EXCEPT ![lkey[ldr[p]]] = @ + 1]
+    /\ nextv' = nextv + 1
+    /\ failed' = failed \cup {ldr[p]}
+    /\ rets' = [rets EXCEPT ![p] = Append(@, Panicked)]
+    /\ Goto(p, "idle")
+    /\ UNCHANGED <<plan, zk, pk, calls, map, chan, cached, lkey, ldr, tmp, val, conval>>
 
 StoreCached(p) ==
     /\ pc[p] = "assign"
     /\ cached' = [cached EXCEPT ![ldr[p]] = tmp[p]]
     /\ Goto(p, "close")
-    /\ UNCHANGED <<plan, zk, calls, map, chan, lkey, ldr, tmp, val, ncons, conval, nextv, rets>>
+    /\ UNCHANGED <<plan, zk, pk, failed, calls, map, chan, lkey, ldr, tmp, val, ncons, conval, nextv, rets>>
 
 Close(p) ==
     /\ pc[p] = "close"
     /\ chan' = [chan EXCEPT ![ldr[p]] = "closed"]
     /\ Goto(p, "read")
-    /\ UNCHANGED <<plan, zk, calls, map, cached, lkey, ldr, tmp, val, ncons, conval, nextv, rets>>
+    /\ UNCHANGED <<plan, zk, pk, failed, calls, map, cached, lkey, ldr, tmp, val, ncons, conval, nextv, rets>>
 
 ReadCached(p) ==
     /\ pc[p] = "read"
     /\ val' = [val EXCEPT ![p] = cached[ldr[p]]]
     /\ Goto(p, "ret")
-    /\ UNCHANGED <<plan, zk, calls, map, chan, cached, lkey, ldr, tmp, ncons, conval, nextv, rets>>
+    /\ UNCHANGED <<plan, zk, pk, failed, calls, map, chan, cached, lkey, ldr, tmp, ncons, conval, nextv, rets>>
 
 Return(p) ==
     /\ pc[p] = "ret"
     /\ rets' = [rets EXCEPT ![p] = Append(@, val[p])]
     /\ Goto(p, "idle")
-    /\ UNCHANGED <<plan, zk, calls, map, chan, cached, lkey, ldr, tmp, val, ncons, conval, nextv>>
+    /\ UNCHANGED <<plan, zk, pk, failed, calls, map, chan, cached, lkey, ldr, tmp, val, ncons, conval, nextv>>
 
 Step(p) == \/ Start(p) \/ LoadHit(p) \/ LoadMiss(p) \/ LoadOrStore(p)
-           \/ RecvToken(p) \/ RecvClosed(p) \/ Construct(p) \/ StoreCached(p)
+           \/ RecvToken(p) \/ RecvClosed(p) \/ Construct(p) \/ ConstructPanics(p) \/ StoreCached(p)
            \/ Close(p) \/ ReadCached(p) \/ Return(p)
 
 Next == \E p \in Procs : Step(p)
@@ -185,7 +210,7 @@ AllFinished == \A p \in Procs : Finished(p)
 Holder(l) == {p \in Procs : pc[p] \in {"construct", "assign", "close"} /\ ldr[p] = l}
 
 TypeOK ==
-    /\ plan \in KeyPlans /\ zk \in ZeroKeySets
+    /\ plan \in KeyPlans /\ zk \in ZeroKeySets /\ pk \in PanicKeySets /\ failed \subseteq 1..Len(chan)
     /\ \A p \in Procs : calls[p] \in 0..Len(plan[p])
     /\ \A p \in Procs : pc[p] \in {"idle", "load", "miss", "call", "construct", "assign", "close", "read", "ret"}
     /\ \A k \in Keys : map[k] \in 0..Len(chan)
@@ -196,15 +221,27 @@ TypeOK ==
 (* C17, clause 1: the constructor is invoked at most once per key ... *)
 OnceOnly == \A k \in Keys : ncons[k] <= 1
 
-(* ... and exactly once as soon as some Get(k) has returned. *)
+(* ... also after a panic: a failed construction is never retried. *)
+NoRetryAfterPanic == \A l \in failed : ncons[lkey[l]] = 1 /\ conval[lkey[l]] = {} /\ ~IsClosed(l) /\ ~HasToken(l)
+
+(* ... and exactly once as soon as some Get(k) has ended (returned or panicked). *)
 ExactlyOnce == \A p \in Procs : \A i \in 1..Len(rets[p]) : ncons[plan[p][i]] = 1
 
 (* C17, clause 2: every caller receives that single result: the zero value     *)
 (* exactly for the keys whose constructor returned it, never the result of     *)
 (* another construction.                                                       *)
+(* In particular every value returned by Get(k) was returned by an invocation  *)
+(* of the constructor for k: if that invocation panicked there is no such      *)
+(* value (conval[k] = {}), so no Get(k) may return at all; the Get that ran    *)
+(* the constructor ends with the panic.                                        *)
 SameResult == \A p \in Procs : \A i \in 1..Len(rets[p]) :
-                  /\ (rets[p][i] = Zero) <=> (plan[p][i] \in zk)
-                  /\ conval[plan[p][i]] = {rets[p][i]}
+                  IF rets[p][i] = Panicked
+                    THEN plan[p][i] \in pk /\ conval[plan[p][i]] = {}
+                    ELSE /\ (rets[p][i] = Zero) <=> (plan[p][i] \in zk)
+                         /\ conval[plan[p][i]] = {rets[p][i]}
+(* at most one Get per key ends with the constructor's panic *)
+OnePanicPerKey == \A k \in Keys :
+    Cardinality({<<p, i>> \in Procs \X (1..8) : i <= Len(rets[p]) /\ rets[p][i] = Panicked /\ plan[p][i] = k}) <= 1
 
 (* C17, clause 3: a slow construction of one key does not block Get of         *)
 (* another.  (a) structural: whoever a blocked process waits for is a process  *)
@@ -212,13 +249,17 @@ SameResult == \A p \in Procs : \A i \in 1..Len(rets[p]) :
 (* (b) literally: a Get(k2) in progress has an enabled step whenever all       *)
 (* constructions in progress (parked in Construct .. Close) are for keys       *)
 (* other than k2.                                                              *)
+(* A Get of a key whose construction panicked is blocked for good (Stuck): the *)
+(* code does that, the property accepts it.                                    *)
+Stuck(q) == Blocked(q) /\ ldr[q] \in failed
 WaitsOnlyOnSameKey ==
     \A q \in Procs : Blocked(q) =>
-        \E r \in Procs \ {q} : r \in Holder(ldr[q]) /\ Key(r) = Key(q)
+        \/ \E r \in Procs \ {q} : r \in Holder(ldr[q]) /\ Key(r) = Key(q)
+        \/ Stuck(q) /\ Key(q) \in pk
 
 IndependentKeys ==
     \A q \in Procs :
-        (/\ InGet(q)
+        (/\ InGet(q) /\ ~Stuck(q)
          /\ \A r \in Procs \ {q} :
                pc[r] \in {"construct", "assign", "close"} => Key(r) # Key(q))
         => ENABLED Step(q)
@@ -226,7 +267,8 @@ IndependentKeys ==
 (* Design lemmas. *)
 TokenConservation ==
     \A l \in Loaders :
-        Cardinality(Holder(l)) + (IF HasToken(l) THEN 1 ELSE 0) + (IF IsClosed(l) THEN 1 ELSE 0) = 1
+        Cardinality(Holder(l)) + (IF HasToken(l) THEN 1 ELSE 0) + (IF IsClosed(l) THEN 1 ELSE 0)
+            + (IF l \in failed THEN 1 ELSE 0) = 1
 
 (* "constructed" is the closed channel together with ncons = 1, not cached # Zero *)
 ClosedImpliesCached ==
@@ -241,7 +283,10 @@ LoaderKeyOK == \A p \in Procs : (pc[p] \notin {"idle", "load", "miss"}) => lkey[
 (* The stored loader of a key is never replaced. *)
 MapStable == [][\A k \in Keys : map[k] # 0 => map'[k] = map[k]]_vars
 
-(* Liveness: once constructors return (fairness of Construct), every Get returns. *)
-Termination == <>[]AllFinished
-EveryGetReturns == \A p \in Procs : InGet(p) ~> ~InGet(p)
+(* Liveness: once constructors return or panic (fairness), every Get ends --    *)
+(* except the Gets of a key whose construction panicked, which stay blocked.   *)
+Termination == <>[](\A p \in Procs : Finished(p) \/ Stuck(p))
+EveryGetReturns == \A p \in Procs : InGet(p) ~> (~InGet(p) \/ Stuck(p))
+(* without constructor faults nobody is ever stuck *)
+NoFaultNoStuck == (pk = {}) => \A p \in Procs : ~Stuck(p)
 =============================================================================
